@@ -10,6 +10,8 @@ type builder struct {
 	doc             *XMLDoc
 	dict            *DataDictionary
 	componentByName map[string]*XMLComponent
+	// Components whose definition is being expanded, to refuse circular references.
+	componentsInProgress map[string]struct{}
 }
 
 func (b *builder) build(doc *XMLDoc) (*DataDictionary, error) {
@@ -30,6 +32,7 @@ func (b *builder) build(doc *XMLDoc) (*DataDictionary, error) {
 	}
 
 	b.componentByName = make(map[string]*XMLComponent)
+	b.componentsInProgress = make(map[string]struct{})
 	for _, c := range doc.Components {
 		b.componentByName[c.Name] = c
 	}
@@ -84,6 +87,12 @@ func (b builder) findOrBuildComponentType(xmlMember *XMLComponentMember) (*Compo
 }
 
 func (b builder) buildComponentType(xmlComponent *XMLComponent) (*ComponentType, error) {
+	if _, inProgress := b.componentsInProgress[xmlComponent.Name]; inProgress {
+		return nil, fmt.Errorf("component %v refers to itself", xmlComponent.Name)
+	}
+	b.componentsInProgress[xmlComponent.Name] = struct{}{}
+	defer delete(b.componentsInProgress, xmlComponent.Name)
+
 	var parts []MessagePart
 
 	for _, member := range xmlComponent.Members {
